@@ -375,6 +375,27 @@ def _roles(ctx, g, fn, label, p_seq, p_at, p_wc):
     ctx.add('P7g', 'T-GUARD', fn, tagbit, '%s: the wake-up condition tests the tag bit of the awaited cell (a never-written slot is not "published")' % label if tagbit else
             '%s: the wake-up condition never looks at the tag bit of the awaited cell: the initial tag of a never-written slot (all ones) counts as "ahead of" every sequence number, so on a queue whose ring has not wrapped yet the waiter reports ready at once, every time - blocking receives busy-spin and Stream::poll never returns NotReady' % label,
             sub=label + '|tagbit')
+    # P7h: the tag may also be AHEAD of the awaited sequence number (a sibling consumer took the value and the
+    # slot was republished, or the stream advanced between the position load and the attempt): that must wake too
+    ahead = False
+    eq = False
+    for sid in x.switches():
+        e = g.strip(g.switch_expr(sid))
+        alts = [e] if e[0] != 'phi' else [g.strip(a) for a in e[1]]
+        for a in alts:
+            if a[0] != 'bin':
+                continue
+            both = any(from_param(z, p_seq) for z in (a[2], a[3])) or any(from_param(z, p_seq) for s_ in g.walk(a) if s_[0] == 'call' for z in g.call_args(s_[1]))
+            lds = [l for l in x.loads_in(a) if all(from_param(z, p_at) for z in g.call_args(l.nid)[:1])]
+            if not lds or not both:
+                continue
+            if a[1] in ('Eq', 'Ne'):
+                eq = True
+            if a[1] in ('Gt', 'Ge', 'Lt', 'Le'):
+                ahead = True
+    ctx.add('P7h', 'T-FLOW', fn, eq and ahead, '%s: wakes when the tag equals the awaited sequence number or is ahead of it' % label if eq and ahead else
+            '%s: the wake-up condition lacks the %s test between the slot tag and the awaited sequence number: on a stream shared by several consumers the tag can skip past the awaited number (sibling took the value, slot republished) and the sleeper never wakes'
+            % (label, 'equality' if not eq else '"tag is ahead"'), sub=label + '|ahead')
     ok = wc0 and seq_at and not bad
     ctx.add('P7f', 'T-FLOW', fn, ok, '%s: writers==0 and tag-vs-sequence tests use the arguments in their roles' % label if ok else
             '%s: wake-up condition misuses its arguments (writer count tested against 0=%s, tag cell tested against the sequence=%s; %s)' % (label, wc0, seq_at, '; '.join(sorted(set(bad)))),
